@@ -15,19 +15,20 @@ fn run<T: HCfg>(steps: &[Value]) -> Result<(), String> {
         let f = s["f"].as_i64().unwrap_or(0) as i32;
         match s["op"].as_str().unwrap_or("") {
             "add" => {
-                let r = q.add_input(f, s["v"].as_u64().unwrap_or(0) as u8);
+                let r = q.add_input(f, T::enc(s["v"].as_u64().unwrap_or(0) as u8));
                 if r as i64 != s["ret"].as_i64().unwrap_or(-9) {
                     return Err(format!("step {i}: add_input({f}) returned {r}, specification {}", s["ret"]));
                 }
             }
             "input" => {
                 let (v, st) = q.input(f);
+                let v = T::dec(v);
                 let stc = match st {
                     InputStatus::Confirmed => 0,
                     InputStatus::Predicted => 1,
                     InputStatus::Disconnected => 2,
                 };
-                if v as u64 != s["v"].as_u64().unwrap_or(99) || stc != s["st"].as_i64().unwrap_or(-9) {
+                if v != s["v"].as_u64().unwrap_or(99) || stc != s["st"].as_i64().unwrap_or(-9) {
                     return Err(format!("step {i}: input({f}) = ({v}, {stc}), specification ({}, {})", s["v"], s["st"]));
                 }
             }
